@@ -4,6 +4,7 @@ the transcribed linear path is checked complete by TLC);  real code: GeoboxTiles
 V: spec/warp/TileTrace.tla (exact separating-axis test; first-principles Needs)."""
 import json
 
+from ..core import idx
 from ..reproj_common import D, boxes
 from .c16 import CRS_A, CRS_B
 
@@ -36,7 +37,7 @@ def _query(c):
             else:
                 yy, xx = gbt.range_from_bbox(bb)
                 out = [(y, x) for y in yy for x in xx]
-        ev["out"] = [[int(a), int(b)] for a, b in out]
+        ev["out"] = [[idx(a), idx(b)] for a, b in out]
     except Exception as ex:  # noqa: BLE001
         ev["outcome"] = type(ex).__name__
     return ev
@@ -60,7 +61,7 @@ def _pair(c):
         gs = GeoboxTiles(src, (tuple(c["sy"]), tuple(c["sx"])))
         gd = GeoboxTiles(dst, (tuple(c["dy"]), tuple(c["dx"])))
         deps = gd.grid_intersect(gs)
-        ev["deps"] = [{"d": [int(k[0]), int(k[1])], "s": [[int(a), int(b)] for a, b in v]} for k, v in sorted(deps.items())]
+        ev["deps"] = [{"d": [idx(k[0]), idx(k[1])], "s": [[idx(a), idx(b)] for a, b in v]} for k, v in sorted(deps.items())]
     except Exception as ex:  # noqa: BLE001
         ev["outcome"] = type(ex).__name__
     return ev
@@ -101,7 +102,7 @@ def _rpair(c):
         dst = GeoBox.from_bbox(BoundingBox(x0, y0, x0 + 0.8 * w * k, y0 + 0.8 * h * k, f"epsg:{d}"), shape=(sum(dy), sum(dx)), tight=True)
         gs, gd = GeoboxTiles(src, (tuple(sy), tuple(sx))), GeoboxTiles(dst, (tuple(dy), tuple(dx)))
         deps = gd.grid_intersect(gs)
-        ev["deps"] = [{"d": [int(kk[0]), int(kk[1])], "s": [[int(a), int(bb)] for a, bb in v]} for kk, v in sorted(deps.items())]
+        ev["deps"] = [{"d": [idx(kk[0]), idx(kk[1])], "s": [[idx(a), idx(bb)] for a, bb in v]} for kk, v in sorted(deps.items())]
         # environment table: destination pixel centres -> source pixel coordinates
         back = pyproj.Transformer.from_crs(int(d), int(s), always_xy=True)
         hd, wd = dst.shape
